@@ -888,12 +888,16 @@ func (em *emitter) emitBuiltin(call *ast.Call, reg int8, dstType reflect.Type) {
 			}
 			em.fb.exitStack()
 		} else {
-			for _, argExpr := range args {
-				em.fb.enterStack()
-				arg := em.emitExpr(argExpr, emptyInterfaceType)
-				em.fb.emitPrint(arg)
-				em.fb.exitStack()
+			// All the arguments are evaluated before printing them.
+			em.fb.enterStack()
+			regs := make([]int8, len(args))
+			for i, argExpr := range args {
+				regs[i] = em.emitExpr(argExpr, emptyInterfaceType)
 			}
+			for _, arg := range regs {
+				em.fb.emitPrint(arg)
+			}
+			em.fb.exitStack()
 		}
 	case "println":
 		if em.isSpecialCall(args) {
@@ -918,7 +922,13 @@ func (em *emitter) emitBuiltin(call *ast.Call, reg int8, dstType reflect.Type) {
 			}
 			em.fb.exitStack()
 		} else {
+			// All the arguments are evaluated before printing them.
+			em.fb.enterStack()
+			regs := make([]int8, len(args))
 			for i, argExpr := range args {
+				regs[i] = em.emitExpr(argExpr, emptyInterfaceType)
+			}
+			for i, arg := range regs {
 				if i > 0 {
 					em.fb.enterStack()
 					str := em.fb.makeStringValue(" ")
@@ -927,11 +937,9 @@ func (em *emitter) emitBuiltin(call *ast.Call, reg int8, dstType reflect.Type) {
 					em.fb.emitPrint(sep)
 					em.fb.exitStack()
 				}
-				em.fb.enterStack()
-				arg := em.emitExpr(argExpr, emptyInterfaceType)
 				em.fb.emitPrint(arg)
-				em.fb.exitStack()
 			}
+			em.fb.exitStack()
 		}
 		em.fb.enterStack()
 		str := em.fb.makeStringValue("\n")
